@@ -64,6 +64,7 @@ type Script struct {
 	WaitErr     error
 	CopyMode    map[string]string // per container id: "" accept | "reject" (fail without reading) | "partial" (read one chunk then fail)
 	InspectUser string
+	LogStagger  time.Duration // > 0: the k-th log stream opened ends k*LogStagger after the first
 }
 
 // Engines is the set of all fake engines of one world (one "datacenter").
@@ -73,6 +74,7 @@ type Engines struct {
 	seq        int
 	hook       EngineHook
 	Script     Script
+	logOpened  int
 }
 
 func NewEngines() *Engines {
@@ -130,6 +132,7 @@ func (w *Engines) Restore(s *EngineSnap) {
 		w.containers[c.ID] = c.clone()
 	}
 	w.seq = s.Seq
+	w.logOpened = 0
 }
 
 func (c *Container) clone() *Container {
@@ -360,12 +363,35 @@ func (f *fakev) VirtualizationCopyChunkTo(ctx context.Context, id, target string
 }
 
 func (f *fakev) logReader() io.ReadCloser {
-	return io.NopCloser(strings.NewReader(strings.Join(f.w.Script.LogLines, "\n") + func() string {
-		if len(f.w.Script.LogLines) > 0 {
-			return "\n"
-		}
-		return ""
-	}()))
+	text := strings.Join(f.w.Script.LogLines, "\n")
+	if len(f.w.Script.LogLines) > 0 {
+		text += "\n"
+	}
+	if d := f.w.Script.LogStagger; d > 0 {
+		// the k-th stream opened in this world ends k*d later than the first (workloads that end one after the other)
+		f.w.mu.Lock()
+		k := f.w.logOpened
+		f.w.logOpened++
+		f.w.mu.Unlock()
+		return io.NopCloser(&delayedReader{r: strings.NewReader(text), delay: time.Duration(k) * d})
+	}
+	return io.NopCloser(strings.NewReader(text))
+}
+
+// delayedReader delivers its content at once and reports EOF only after delay has passed.
+type delayedReader struct {
+	r     io.Reader
+	delay time.Duration
+	slept bool
+}
+
+func (d *delayedReader) Read(p []byte) (int, error) {
+	n, err := d.r.Read(p)
+	if err == io.EOF && !d.slept {
+		d.slept = true
+		time.Sleep(d.delay)
+	}
+	return n, err
 }
 
 func (f *fakev) VirtualizationLogs(ctx context.Context, opts *enginetypes.VirtualizationLogStreamOptions) (io.ReadCloser, io.ReadCloser, error) {
